@@ -13,12 +13,19 @@ LEVEL_TEXT = ("Every type of the grammar T ::= INT | STRING | ARRAY<T> | MAP<STR
               "each of 4 following options, is parsed by the real library: the reported type must equal the written one modulo white "
               "space with balanced brackets, the size must be the written one, the option must survive and both neighbours must be "
               "exactly what they are next to a plain type.")
-LEVEL_NOTE = "Nesting depth bound 2 (3 thorough); element types INT and STRING only; one parameterised type per table."
+LEVEL_NOTE = ("Nesting depth bound 2 (3 thorough); element types INT and STRING only; one parameterised type per table except the "
+              "6 x 6 side-by-side pairs; the table is also placed after an unsupported statement with a lone < or > and after a table with "
+              "a nested type. (n CHAR) sizes are not combined with the [] suffix (no dialect has both).")
 RULE = ("case = (type expression, spacing, column position, following option); non-trivial = type has a parameter, bracket or second "
         "word; distinct by rendered DDL")
 ASSUMPTIONS = ["type text is compared modulo white space (the property says 'one type string with balanced brackets')"]
 
-OPTS = ["", " NOT NULL", " DEFAULT 1", " COMMENT 'c'"]
+OPTS = ["", " NOT NULL", " DEFAULT 1", " COMMENT 'c'", " NOT NULL DEFAULT 1", " DEFAULT 1 NOT NULL COMMENT 'c'"]
+# statements put before the table (the last one a supported table whose own type leaves '<' / '>' bookkeeping behind)
+CTX = ["", "SELECT a FROM t0 WHERE a > 5;\n", "SELECT a FROM t0 WHERE a < 5;\n", "CREATE TABLE p (m MAP<STRING,ARRAY<INT>>, n int);\n"]
+PAIR = [("decimal(10,2)", "decimal", [10, 2]), ("varchar(5)[]", "varchar[]", 5), ("MAP<STRING,INT>", "MAP<STRING,INT>", None),
+        ("ARRAY<STRUCT<a:INT,b:STRING>>", "ARRAY<STRUCT<a:INT,b:STRING>>", None), ("STRUCT<a:ARRAY<INT>,b:STRING>", "STRUCT<a:ARRAY<INT>,b:STRING>", None),
+        ("number(*,2)", "number", ["*", 2])]
 SIZED = [("varchar(10)", "varchar", 10), ("decimal(10,2)", "decimal", [10, 2]), ("decimal(10, 2)", "decimal", [10, 2]),
          ("varchar(max)", "varchar", "max"), ("varchar2(10 CHAR)", "varchar2", "10 CHAR"), ("number(*,2)", "number", ["*", 2]),
          ("number(*, 2)", "number", ["*", 2]), ("numeric(5)", "numeric", 5), ("int[]", "int[]", None), ("int[][]", "int[][]", None),
@@ -27,6 +34,14 @@ SIZED = [("varchar(10)", "varchar", 10), ("decimal(10,2)", "decimal", [10, 2]), 
          ("timestamp without time zone", "timestamp", None), ("bigint unsigned", "bigint unsigned", None),
          ("time(3)", "time", 3), ("float(24)", "float", 24), ("VARCHAR (10)", "VARCHAR", 10), ("NUMBER ( 10 , 2 )", "NUMBER", [10, 2]),
          ("nvarchar(MAX)", "nvarchar", "MAX")]
+# every size form x every array suffix, and sized two-word types ((n CHAR) is Oracle-only and is not combined with the PostgreSQL suffix)
+for _b, _t, _z in [("varchar(10)", "varchar", 10), ("decimal(10,2)", "decimal", [10, 2]), ("decimal(10, 2)", "decimal", [10, 2]),
+                   ("numeric(*,2)", "numeric", ["*", 2]), ("varchar(max)", "varchar", "max"), ("character varying(20)", "character varying", 20),
+                   ("double precision", "double precision", None)]:
+    for _s in ("[]", "[][]", " []"):
+        SIZED.append((_b + _s, _t + _s.strip(), _z))
+SIZED += [("int(6) unsigned", "int unsigned", 6), ("decimal(10,2) unsigned", "decimal unsigned", [10, 2]), ("decimal(10, 2) unsigned", "decimal unsigned", [10, 2]),
+          ("timestamp(3) with time zone", "timestamp", 3), ("time(3) without time zone", "time", 3)]
 
 
 def types(depth):
@@ -79,6 +94,17 @@ def gen_cases(tier):
         for pos in range(3):
             for oi in range(len(OPTS)):
                 cases.append({"kind": "sized", "si": si, "pos": pos, "opt": oi})
+    # the same table as a later statement of a script: after an unsupported statement with a lone '>' / '<', after a nested-type table
+    for c in list(cases):
+        if c["pos"] == 1 and c["opt"] in (0, 1):
+            for ci in range(1, len(CTX)):
+                cases.append(dict(c, ctx=ci))
+    # two parameterised types side by side
+    for i in range(len(PAIR)):
+        for j in range(len(PAIR)):
+            for sp in ("none", "comma"):
+                for oi in (0, 4):
+                    cases.append({"kind": "pair", "i": i, "j": j, "sp": sp, "opt": oi})
     return cases
 
 
@@ -95,18 +121,23 @@ def balanced(s):
 
 
 def build(case):
+    if case["kind"] == "pair":
+        a, b = spacing(PAIR[case["i"]][0], case["sp"]), spacing(PAIR[case["j"]][0], case["sp"])
+        return "CREATE TABLE t (c0 %s%s, c1 %s%s, c2 int);" % (a, OPTS[case["opt"]], b, OPTS[case["opt"]]), a + " | " + b
     if case["kind"] == "angle":
         tt = spacing(case["type"], case["sp"])
     else:
         tt = SIZED[case["si"]][0]
     cols = ["c0 int", "c1 varchar(5)", "c2 int"]
     cols[case["pos"]] = "c%d %s%s" % (case["pos"], tt, OPTS[case["opt"]])
-    return "CREATE TABLE t (" + ", ".join(cols) + ");", tt
+    return CTX[case.get("ctx", 0)] + "CREATE TABLE t (" + ", ".join(cols) + ");", tt
 
 
 def features(case):
     f = []
     ddl, tt = build(case)
+    if case["kind"] == "pair":
+        return f
     if case["kind"] == "angle":
         toks = tt.replace(",", " , ").split() if case["sp"] == "none" else tt.replace(", ", " , ").split()
         # a whitespace-delimited token containing both brackets (after the pre-processor's comma spacing)
@@ -124,13 +155,27 @@ def evaluate(case):
     if r[0] != "ok":
         return {"diffs": [diff("run", "raises:" + r[1], "result", r[2])], "outcome": "exc"}
     res = r[1]
-    if len(res) != 1 or not is_table(res[0]):
-        return {"diffs": [diff("result", "table-missing", "one table", short(res, 160))], "nontrivial": True, "outcome": "missing"}
-    cs = res[0]["columns"]
+    ntab = 2 if case.get("ctx") == 3 else 1
+    if len(res) != ntab or not all(is_table(e) for e in res):
+        return {"diffs": [diff("result", "table-missing", "%d table(s)" % ntab, short(res, 160))], "nontrivial": True, "outcome": "missing"}
+    cs = res[-1]["columns"]
     if [c.get("name") for c in cs] != ["c0", "c1", "c2"]:
         return {"diffs": [diff("columns", "column-names-differ", ["c0", "c1", "c2"], [c.get("name") for c in cs])], "outcome": "names"}
-    c = cs[case["pos"]]
     ws = lambda x: re.sub(r"\s", "", str(x))  # noqa
+    if case["kind"] == "pair":
+        for k, pi in ((0, case["i"]), (1, case["j"])):
+            _, ty, size = PAIR[pi]
+            got = list(cs[k]["size"]) if isinstance(cs[k].get("size"), (tuple, list)) else cs[k].get("size")
+            if ws(cs[k].get("type")).lower() != ws(ty).lower() or not balanced(str(cs[k].get("type"))):
+                D.append(diff("type of c%d" % k, "type-differs", ty, cs[k].get("type")))
+            if got != size:
+                D.append(diff("size of c%d" % k, "size-differs", size, got))
+            D.extend(_opts(OPTS[case["opt"]], cs[k]))
+        n = cs[2]
+        if (n.get("type"), n.get("size"), n.get("nullable"), n.get("default")) != ("int", None, True, None):
+            D.append(diff("neighbour column c2", "neighbour-changed", ["int", None, True, None], [n.get("type"), n.get("size"), n.get("nullable"), n.get("default")]))
+        return {"diffs": D, "nontrivial": True, "outcome": "pair:" + case["sp"]}
+    c = cs[case["pos"]]
     if case["kind"] == "angle":
         if ws(c.get("type")) != ws(case["type"]) or not balanced(str(c.get("type"))):
             D.append(diff("type of c%d" % case["pos"], "type-differs", case["type"], c.get("type")))
@@ -145,21 +190,24 @@ def evaluate(case):
             got = list(got)
         if got != size:
             D.append(diff("size of c%d" % case["pos"], "size-differs", size, got))
-    o = OPTS[case["opt"]]
-    if o == " NOT NULL" and c.get("nullable") is not False:
-        D.append(diff("option after the type", "option-lost:NOT NULL", False, c.get("nullable")))
-    if o == " DEFAULT 1" and c.get("default") != 1:
-        D.append(diff("option after the type", "option-lost:DEFAULT", 1, c.get("default")))
-    if o == " COMMENT 'c'" and c.get("comment") != "'c'":
-        D.append(diff("option after the type", "option-lost:COMMENT", "'c'", c.get("comment")))
-    if o == "" and (c.get("nullable") is not True or c.get("default") is not None):
-        D.append(diff("column without options", "option-invented", [True, None], [c.get("nullable"), c.get("default")]))
+    D.extend(_opts(OPTS[case["opt"]], c))
     for i, (ty, sz) in enumerate([("int", None), ("varchar", 5), ("int", None)]):
         if i != case["pos"]:
             n = cs[i]
             if (n.get("type"), n.get("size"), n.get("nullable"), n.get("default")) != (ty, sz, True, None):
                 D.append(diff("neighbour column c%d" % i, "neighbour-changed", [ty, sz, True, None], [n.get("type"), n.get("size"), n.get("nullable"), n.get("default")]))
     return {"diffs": D, "nontrivial": True, "outcome": case["kind"] + ":" + str(case.get("sp"))}
+
+
+def _opts(o, c):
+    D = []
+    if c.get("nullable") is not ("NOT NULL" not in o):
+        D.append(diff("option after the type", "option-lost:NOT NULL" if "NOT NULL" in o else "option-invented", "NOT NULL" not in o, c.get("nullable")))
+    if c.get("default") != (1 if "DEFAULT 1" in o else None):
+        D.append(diff("option after the type", "option-lost:DEFAULT" if "DEFAULT" in o else "option-invented", 1 if "DEFAULT 1" in o else None, c.get("default")))
+    if "COMMENT" in o and c.get("comment") != "'c'":
+        D.append(diff("option after the type", "option-lost:COMMENT", "'c'", c.get("comment")))
+    return D
 
 
 def describe(case):
